@@ -509,6 +509,33 @@ impl CliRejects {
                 if fmt != Format::Gambit {
                     return Err("not-applicable");
                 }
+                if r.coin(0.2) {
+                    // a well-formed game of ONE player: player two's nodes become player one's (own
+                    // infoset numbers), every payoff list has one entry
+                    let mut c = case.clone();
+                    c.fancy = false;
+                    let plain = String::from_utf8_lossy(&c.write().bytes).into_owned();
+                    let mut o = String::new();
+                    for (k, line) in plain.lines().enumerate() {
+                        let mut l = line.to_string();
+                        if k == 0 {
+                            l = l.replacen("{ \"one\" \"two\" }", "{ \"one\" }", 1);
+                        } else if let Some(rest) = line.strip_prefix("p \"\" 2 ") {
+                            let (num, tail) = rest.split_once(' ').ok_or("not-applicable")?;
+                            let n: u64 = num.parse().map_err(|_| "not-applicable")?;
+                            l = format!("p \"\" 1 {} {}", n + 1000, tail);
+                        } else if line.starts_with("t ") {
+                            if let (Some(a), Some(b)) = (line.rfind("{ "), line.rfind(", ")) {
+                                if b > a {
+                                    l = format!("{} }}", &line[..b]);
+                                }
+                            }
+                        }
+                        o.push_str(&l);
+                        o.push('\n');
+                    }
+                    return Ok(vec![one(o.into_bytes(), "file_semantic_gambit_one_player_well_formed", Some(vec!["only supports two player games", "#gambit-error"]))]);
+                }
                 if r.coin(0.3) {
                     // one player only (the payoff lists keep two entries: the parser objects, or the
                     // binary does; either way it is not a two-player game)
@@ -589,6 +616,17 @@ impl CliRejects {
                 let l = lines[i];
                 let a = l.rfind("{ ").ok_or("not-applicable")?;
                 let mut out: Vec<String> = lines.iter().map(|s| s.to_string()).collect();
+                if r.coin(0.4) && lines.len() > 2 && (lines[1].starts_with("p ") || lines[1].starts_with("c ")) && lines[1].ends_with(" 0") {
+                    // every number fits in a double, but what a player has been paid in total at the
+                    // end of any play does not: 1e308 at the root and 1e308 again at every terminal
+                    out[1] = format!("{} 9999 \"\" {{ 1e308, -1e308 }}", &lines[1][..lines[1].len() - 2]);
+                    for &j in &tl {
+                        if let Some(b) = lines[j].rfind("{ ") {
+                            out[j] = format!("{}{{ 1e308, -1e308 }}", &lines[j][..b]);
+                        }
+                    }
+                    return Ok(vec![one((out.join("\n") + "\n").into_bytes(), "file_semantic_gambit_payments_overflow_in_total", Some(vec!["non-finite payoffs", "#constant-sum", "#gambit-error"]))]);
+                }
                 out[i] = format!("{}{{ 1e400, -1e400 }}", &l[..a]);
                 Ok(vec![one((out.join("\n") + "\n").into_bytes(), "file_semantic_gambit_payoff_1e400", Some(vec!["non-finite payoffs", "#constant-sum", "#gambit-error"]))])
             }
